@@ -202,7 +202,7 @@ def _mc_job(args):
 
 
 def _rand_image(rng, w, h, mode, vden, vmax):
-    kind = rng.choice(["noise", "noise", "blobs", "ramp"])
+    kind = rng.choice(["noise", "noise", "blobs", "ramp", "dark"])
     top = vmax * vden
     if kind == "noise":
         rows = [[rng.randint(1, top) for _ in range(w)] for _ in range(h)]
@@ -210,7 +210,8 @@ def _rand_image(rng, w, h, mode, vden, vmax):
         a, b = rng.randint(0, 5), rng.randint(0, 5)
         rows = [[1 + (a * x + b * y + rng.randint(0, 2)) % top for x in range(w)] for y in range(h)]
     else:
-        rows = [[1 + rng.randint(0, max(1, top // 8)) for _ in range(w)] for _ in range(h)]
+        # "dark": bright spots on a background that is exactly 0 (interfaces lying wholly on the background measure 0)
+        rows = [[0 if kind == "dark" else 1 + rng.randint(0, max(1, top // 8)) for _ in range(w)] for _ in range(h)]
         for _ in range(rng.randint(1, 6)):
             cx, cy, rad = rng.randrange(w), rng.randrange(h), rng.randint(1, 4)
             for y in range(max(0, cy - rad), min(h, cy + rad + 1)):
